@@ -52,7 +52,9 @@ func baselines() []string {
 
 // scenarios name the operations that run concurrently
 var scenarioNames = [][]string{{"parse-one", "parse-two"}, {"parse-one", "parse-one"}, {"parse-one", "parse-one-dfa"}, {"parse-two", "pattern"},
-	{"parse-bad", "parse-one"}, {"parse-three-lalr", "parse-two"}, {"pattern-class", "pattern-negated-class"}, {"parse-one", "parse-two", "pattern"}, {"parse-one", "parse-one", "parse-bad"}}
+	{"parse-bad", "parse-one"}, {"parse-three-lalr", "parse-two"}, {"pattern-class", "pattern-negated-class"}, {"parse-one", "parse-two", "pattern"}, {"parse-one", "parse-one", "parse-bad"},
+	{"ast-negated-unicode", "ast-any-nondigit"}, {"ast-negated-unicode", "ast-negated-unicode"}, {"ast-classes", "ast-any-nondigit"},
+	{"nfa-any-nonword", "pattern-negated-class"}, {"parse-four-dfa", "ast-negated-unicode"}}
 
 var scenarios = func() [][]int {
 	var out [][]int
@@ -280,7 +282,7 @@ func main() {
 		racePass(r, rounds)
 	}
 	if r.Fork(16) {
-		r.Set("rule", "part 1: 8 scenarios of 2-3 concurrent operations (two specifications built to collide on repeated multi-symbol sub-expressions, a pattern, a specification with errors, automaton and table construction); scheduling points = every statement of /repo touching a package-level variable; all interleavings with at most the preemption bound are enumerated, each thread's result compared with the same operation run alone in a fresh process; states = distinct outcomes, transitions = scheduling points passed; part 2: free-running -race pass; part 3: every sequential history up to the length bound over 6 operations")
+		r.Set("rule", "part 1: 14 scenarios of 2-3 concurrent operations (two specifications built to collide on repeated multi-symbol sub-expressions, a pattern, a specification with errors, automaton and table construction); scheduling points = every statement of /repo touching a package-level variable; all interleavings with at most the preemption bound are enumerated, each thread's result compared with the same operation run alone in a fresh process; states = distinct outcomes, transitions = scheduling points passed; part 2: free-running -race pass; part 3: every sequential history up to the length bound over 13 operations")
 		r.Set("evaluations", r.Get("executions")+r.Get("histories"))
 		r.Set("traces_validated_against_impl", r.Get("executions")+r.Get("histories"))
 		if r.Get("states") == 0 {
